@@ -9,7 +9,8 @@ PID = "C18"
 LEVEL = "exploration"
 RULE = ("generated swarms (sizes 1..30, dimensions 1..6, all box families, positions/velocities up to 1e6 ranges outside the box, "
         "arbitrary personal bests, leader archives of 1..N members) driven through the public update methods of OMOPSO, SMPSO and "
-        "PSOGA, plus the same monitors inside full runs; oracles: sequential personal-best model keyed by the features dict, "
+        "PSOGA, sequences of leader generations on one archive with the population-size option changed in between and with "
+        "generations in which no particle enters, plus the same monitors inside full runs; oracles: sequential personal-best model keyed by the features dict, "
         "clamp bound, exact bound-reset model, archive invariants. non-trivial = update in which at least one particle keeps its "
         "old best / at least one coordinate is reset to a bound / a velocity is clamped; distinct by the pre-state")
 ASSUMPTIONS = ["values are finite (no inf/NaN positions)", "leader invariants are judged on separated cost vectors only "
